@@ -45,12 +45,12 @@ ASSUMPTIONS = ["the property is judged against the target's own logd (Posterior.
                "(1, 10, 100) but differ elsewhere are not generated (probing is the documented validation mechanism)"]
 REQUIRED_COUNTERS = {
     "quick": {"conj_steps_judged": 1600, "shape_compared": 1600, "rate_compared": 1600, "np_gamma_crosschecked": 1600,
-              "ref_update_compared": 1000, "scripted_gamma_scaling_checked": 600, "rejections_observed": 130,
-              "accepted_draws_judged": 40, "direct_draws_compared": 180, "direct_replay_compared": 160,
+              "ref_update_compared": 1000, "scripted_gamma_scaling_checked": 600, "rejections_observed": 160,
+              "accepted_draws_judged": 150, "direct_draws_compared": 180, "direct_replay_compared": 160,
               "gibbs_conj_steps_judged": 240, "ks_tests": 6},
     "thorough": {"conj_steps_judged": 10000, "shape_compared": 10000, "rate_compared": 10000, "np_gamma_crosschecked": 10000,
-                 "ref_update_compared": 6000, "scripted_gamma_scaling_checked": 4000, "rejections_observed": 400,
-                 "accepted_draws_judged": 130, "direct_draws_compared": 1200, "direct_replay_compared": 1100,
+                 "ref_update_compared": 6000, "scripted_gamma_scaling_checked": 4000, "rejections_observed": 480,
+                 "accepted_draws_judged": 480, "direct_draws_compared": 1200, "direct_replay_compared": 1100,
                  "gibbs_conj_steps_judged": 1600, "ks_tests": 30},
 }
 BUDGET_S = {"quick": 240.0, "thorough": 1500.0}
